@@ -554,7 +554,7 @@ func c10ConcurrentFirst(c *C) {
 		for g := 0; g < k; g++ {
 			if errs[g] != nil || outs[g] != want {
 				c.Fail("inheritance-mismatch", D{"chain_depth": depth, "round": round, "goroutine": g, "output": q(truncStr(outs[g], 300)), "expected": q(want), "error": errStr(errs[g]),
-					"why": "the first executions of a freshly compiled template (end of a 400-level extends chain) on 8 goroutines at once"})
+					"why": "the first executions of a freshly compiled template (end of a 400-level extends chain) on 8 goroutines at once", "schedule_dependent": true})
 				return
 			}
 		}
